@@ -55,16 +55,42 @@ def real_groups(n, linked):
     """The real class `groups` on targets 0..n-1 whose link relation is `linked` (set of frozenset pairs)."""
     sg = sg_module()
     x = np.arange(n, dtype='d').reshape(1, n)
-    g = sg.groups(x, 0.5, lambda a, b: 0.0 if (a[0] == b[0] or frozenset((int(a[0]), int(b[0]))) in linked) else 1.0)
+    def linked_or_same(a, b):
+        i, j = int(np.asarray(a).ravel()[0]), int(np.asarray(b).ravel()[0])
+        return 0.0 if (i == j or frozenset((i, j)) in linked) else 1.0
+    g = sg.groups(x, 0.5, linked_or_same)
     return {'ig': tolist(g.inGroup), 'mult': tolist(g.multGroup), 'first': tolist(g.firstGroup),
             'next': tolist(g.nextGroup), 'ng': int(g.nGroups)}
 
 
+def harness_fault(ex):
+    """True when an exception comes out of harness-built objects rather than out of pydl's own code on valid arrays:
+    innermost frame in this file (the stand-in separation, the cover layout methods) or a missing attribute on the
+    cover-layout chunks object.  Such an exception is a failure of the machinery (exit 2), never a VIOLATION."""
+    import traceback
+    tb = traceback.extract_tb(ex.__traceback__)
+    if tb and tb[-1].filename == __file__:
+        return True
+    return isinstance(ex, (AttributeError, NotImplementedError))
+
+
 def make_fake_chunks(sg, cover, linked):
-    """A chunks object whose layout IS the cover; everything else (friendsoffriends) is the real code."""
-    class CoverChunks(sg.chunks):
+    """A chunks object whose layout IS the cover.  It is built by the real constructor (so that every attribute the
+    real methods rely on exists) and only then chunkList / nDec / nRa are set to the cover; friendsoffriends and the
+    class groups are the real code.  The stand-in separation accepts whatever coordinate shape/dtype it is handed."""
+    def linked_or_same(a, b):
+        i, j = int(np.asarray(a).ravel()[0]), int(np.asarray(b).ravel()[0])
+        return 0.0 if (i == j or frozenset((i, j)) in linked) else 1.0
+
+    real = sg.chunks
+    if getattr(real, '_c05_cover_layout', False):
+        raise core.MachineryError('pydl.pydlutils.spheregroup.chunks is still the harness subclass')
+
+    class CoverChunks(real):
+        _c05_cover_layout = True
+
         def __init__(self, ra, dec, minSize):
-            self.minSize = minSize
+            real.__init__(self, np.asarray(ra, dtype='d'), np.asarray(dec, dtype='d'), minSize)
             self.nDec = 1
             self.nRa = [len(cover)]
             self.raOffset = 0.0
@@ -76,8 +102,7 @@ def make_fake_chunks(sg, cover, linked):
 
         def chunkfriendsoffriends(self, ra, dec, chunkList, linkSep):
             x = np.asarray(ra)[chunkList].reshape(1, len(chunkList))
-            return sg.groups(x, 0.5, lambda a, b: 0.0 if (a[0] == b[0] or
-                                                          frozenset((int(a[0]), int(b[0]))) in linked) else 1.0)
+            return sg.groups(x, 0.5, linked_or_same)
     return CoverChunks
 
 
@@ -91,9 +116,14 @@ def real_cover_case(n, adj, cover, dtype='d'):
     raw = fin = None
     try:
         ch = fake(ra, dec, 2.0)
+    except Exception as ex:
+        raise core.MachineryError('cover-layout chunks object could not be constructed: %r' % (ex,))
+    try:
         r = ch.friendsoffriends(ra, dec, 0.5)
         raw = {'ig': tolist(r[0]), 'mult': tolist(r[1]), 'first': tolist(r[2]), 'next': tolist(r[3]), 'ng': int(r[4])}
     except Exception as ex:
+        if harness_fault(ex):
+            raise core.MachineryError('exception inside harness-built objects (cover replay): %r' % (ex,))
         raw = {'exc': '%s: %s' % (type(ex).__name__, str(ex)[:120])}
     saved = sg.chunks
     sg.chunks = fake
@@ -103,6 +133,8 @@ def real_cover_case(n, adj, cover, dtype='d'):
             r = sg.spheregroup(ra, dec, 0.5)
         fin = {'ig': tolist(r[0]), 'mult': tolist(r[1]), 'first': tolist(r[2]), 'next': tolist(r[3])}
     except Exception as ex:
+        if harness_fault(ex):
+            raise core.MachineryError('exception inside harness-built objects (cover replay): %r' % (ex,))
         fin = {'exc': '%s: %s' % (type(ex).__name__, str(ex)[:120])}
     finally:
         sg.chunks = saved
@@ -448,15 +480,46 @@ def make_sweep(rng, tmax, perm_b):
 # ----------------------------------------------------------------------------------------------
 # input representation: the same whole-degree positions as float64, integer, mixed and float32 arrays
 # ----------------------------------------------------------------------------------------------
-COVER_DTYPES = ['d', 'i8', 'd', 'i4']
-DTYPE_COMBOS = [('d', 'd'), ('i8', 'i8'), ('i4', 'i4'), ('i8', 'd'), ('d', 'i4'), ('i2', 'i8'), ('f4', 'f4')]
+COVER_DTYPES = ['d', 'i8', 'i4', 'i2', 'u2', 'u1']      # point indices 0..4 fit every one of them
 F32_BAND = 1e-3      # float32 input: pairs within 1e-3 relative of the linking length are left open
+
+
+def dtype_combos(pts):
+    """(ra dtype, dec dtype) pairs in which these whole-degree values fit exactly."""
+    ras, decs = [p[0] for p in pts], [p[1] for p in pts]
+    combos = [('d', 'd'), ('i8', 'i8'), ('i4', 'i4'), ('i2', 'i2'), ('i8', 'd'), ('d', 'i4'), ('i2', 'i8'), ('f4', 'f4')]
+    if min(decs) >= 0:
+        combos += [('u2', 'u2'), ('u2', 'i2')]
+        if max(ras) <= 255:
+            combos += [('u1', 'u1'), ('u1', 'd')]
+    if max(ras) <= 127 and max(abs(d) for d in decs) <= 90:
+        combos += [('i1', 'i1')]
+    return combos
+
+
+INT_SCALAR_FORMS = ['pyint', 'i8', 'i4', 'i2', 'u2', 'u1', 'a0i', 'a0f', 'f8']
+FLOAT_SCALAR_FORMS = ['f', 'f8', 'a0f']
+
+
+def scalar_form(v, form):
+    """The same VALUE as another numeric type: Python int, numpy integer scalar, 0-d array, numpy float."""
+    if v is None or form in (None, 'f'):
+        return v
+    if form == 'pyint':
+        return int(v)
+    if form == 'a0i':
+        return np.array(int(v))
+    if form == 'a0f':
+        return np.array(float(v))
+    if form == 'f8':
+        return np.float64(v)
+    return np.dtype(form).type(int(v))
 
 
 def gen_whole(rng):
     """Whole-degree positions (exactly representable in every dtype used)."""
-    kind = rng.choice(['chain', 'chain', 'box', 'box', 'polar', 'demo'])
-    L = rng.choice([0.5, 0.9, 1.3, 1.5, 2.5, 3.3, 4.7])
+    kind = rng.choice(['chain', 'chain', 'box', 'ubox', 'ubox', 'polar', 'demo', 'lattice', 'lattice'])
+    L = rng.choice([0.5, 0.9, 1.1, 1.3, 1.5, 2.2, 2.5, 3.3, 4.7])
     if kind == 'demo':
         pts = [(float(x), 0.0) for x in range(0, 40, 2)]
         L = rng.choice([1.0, 1.5, 2.5])
@@ -470,22 +533,40 @@ def gen_whole(rng):
         r0 = rng.choice([rng.randint(0, 359), 352])
         w, h = rng.randint(3, 14), rng.randint(2, 9)
         pts = [(float((r0 + rng.randint(0, w)) % 360), float(d0 + rng.randint(0, h))) for _ in range(rng.randint(4, 36))]
+    elif kind == 'ubox':          # fits the unsigned 8-bit types: 0 <= RA <= 255, Dec >= 0
+        d0 = rng.randint(0, 80)
+        r0 = rng.randint(0, 240)
+        w, h = rng.randint(3, 12), rng.randint(2, 9)
+        pts = [(float(r0 + rng.randint(0, w)), float(d0 + rng.randint(0, h))) for _ in range(rng.randint(4, 30))]
+    elif kind == 'lattice':       # whole-degree lattice and a whole-degree linking length that no lattice distance equals
+        step, L = rng.choice([(2, 3), (3, 4), (3, 2), (2, 1), (5, 6), (4, 5)])
+        d0 = rng.choice([rng.randint(-60, 50), rng.randint(0, 50), 90 - 3 * step])
+        r0 = rng.choice([rng.randint(0, 200), 360 - 2 * step, rng.randint(0, 359)])
+        nx, ny = rng.randint(2, 6), rng.randint(1, 4)
+        pts = [(float((r0 + ix * step) % 360), float(min(90, d0 + iy * step))) for ix in range(nx) for iy in range(ny)]
+        pts = [p for k, p in enumerate(pts) if rng.random() < 0.85 or k < 2]
     else:
-        sign = rng.choice([1, -1])
+        sign = rng.choice([1, 1, -1])
         pts = [(float(rng.randrange(0, 360, 5)), float(sign * rng.randint(84, 90))) for _ in range(rng.randint(4, 24))]
     return pts, L, 'whole-' + kind
 
 
 def make_dtype_sets(rng, count):
     out = []
+    k = 0
     for _ in range(count):
         pts, L, tag = gen_whole(rng)
         if rng.random() < 0.5:
             rng.shuffle(pts)
         cs = admissible_chunksize(pts, L, rng.choice([None, None, 4.0 * L, 6.0 * L]))
-        for dt in DTYPE_COMBOS:
-            s = {'ra': [p[0] for p in pts], 'dec': [p[1] for p in pts], 'L': L, 'cs': cs, 'dt': list(dt),
-                 'tag': tag}
+        for dt in dtype_combos(pts):
+            k += 1
+            lforms = INT_SCALAR_FORMS if float(L) == int(L) else FLOAT_SCALAR_FORMS
+            s = {'ra': [p[0] for p in pts], 'dec': [p[1] for p in pts], 'L': L, 'cs': cs, 'dt': list(dt), 'tag': tag,
+                 'lform': lforms[k % len(lforms)] if k % 3 else 'f'}
+            if cs is not None:
+                cforms = INT_SCALAR_FORMS if float(cs) == int(cs) else FLOAT_SCALAR_FORMS
+                s['csform'] = cforms[(k // 2) % len(cforms)] if k % 2 else 'f'
             if 'f4' in dt:
                 s['band'] = F32_BAND
             out.append(s)
@@ -500,7 +581,7 @@ def run_real(s):
     try:
         with warnings.catch_warnings():
             warnings.simplefilter('ignore')
-            r = sg.spheregroup(ra, dec, s['L'], chunksize=s['cs'])
+            r = sg.spheregroup(ra, dec, scalar_form(s['L'], s.get('lform')), chunksize=scalar_form(s['cs'], s.get('csform')))
         return {'ig': tolist(r[0]), 'mult': tolist(r[1]), 'first': tolist(r[2]), 'next': tolist(r[3])}
     except Exception as ex:
         return {'exc': '%s: %s' % (type(ex).__name__, str(ex)[:160])}
@@ -545,10 +626,18 @@ def run(ctx):
     ctx.assumptions = [
         'inputs: RA in [0,360), |Dec| <= 90 deg (the poles included), n >= 2, linking length 3e-4 .. 30 deg; chunksize None or a multiple of the '
         'linking length (values below 4 L are raised to 4 L by spheregroup itself)',
-        'input representation: numpy arrays (spheregroup reads ra.size, so Python lists are outside its interface); whole-degree '
-        'sets are given as float64, int64, int32, int16, mixed ra/dec dtypes and float32, expected partition from the oracle on the '
-        'float64 values; float32 input only with whole-degree positions and pairs within 1e-3 relative of the linking length left '
-        'open (nothing is asserted at float32 resolution); replayed covers alternate float64 / int64 / int32 coordinate arrays',
+        'input representation: numpy arrays (spheregroup reads ra.size, so Python lists are outside its interface); the numeric '
+        'TYPE of every argument is a dimension of the recorded runs: whole-degree sets (chains and lattices across the RA seam, '
+        'boxes, polar caps incl. Dec = 90) are given as float64, int64, int32, int16, int8, uint16, uint8 (as the values fit), '
+        'mixed ra/dec dtypes and float32; linklength and chunksize as Python float/int, numpy int64/int32/int16/uint16/uint8/float64 '
+        'scalars and 0-d arrays; the expected partition is the oracle\'s on the float64 VALUES. float32 input only with whole-degree '
+        'positions and pairs within 1e-3 relative of the linking length left open (nothing is asserted at float32 resolution). '
+        'Replayed covers rotate float64/int64/int32/int16/uint16/uint8 coordinate arrays',
+        'gcirc\'s integer handling (commit 5381ba7) is not reachable from spheregroup: it always hands gcirc float radians '
+        '(quick check exits 0 with that fix reverted); the 8/16-bit precision loss that IS in spheregroup\'s own code '
+        '(np.deg2rad of the stacked integer coordinates) is covered by the integer forms above',
+        'an exception raised inside harness-built objects (the cover-layout chunks subclass, built by the real constructor, or the '
+        'stand-in separation callable) is a MachineryError (exit 2), never a VIOLATION',
         'link relation of a recorded set = independent oracle (numpy longdouble, chord and atan2 formulas); pairs within '
         '1e-9 relative / 1e-12 deg of the linking length are borderline and may count either way (sets with more than %d '
         'borderline pairs are not judged)' % MAX_BORDER,
@@ -644,15 +733,18 @@ def run(ctx):
         kept.append((s, obs))
         if adj:
             ctx.nontriv(('sky', len(kept)))
-    bad = core.validate_records(ctx, 'Trace_FoF', recs, label='Trace_FoF(spheregroup)', chunk=800)
+    bad = core.validate_records(ctx, 'Trace_FoF', recs, label='Trace_FoF(spheregroup)', chunk=2000)
     ctx.evaluated(len(recs), 'recorded-spheregroup')
     ctx.validated(len(recs))
-    tags, dts = {}, {}
+    tags, dts, forms = {}, {}, {}
     for s, _ in kept:
         tags[s['tag']] = tags.get(s['tag'], 0) + 1
         dk = '/'.join(s.get('dt', ['d', 'd']))
         dts[dk] = dts.get(dk, 0) + 1
-    ctx.sample({'recorded_sets': len(recs), 'not_judged_too_many_borderline_pairs': skipped, 'by_driver': tags, 'by_input_dtypes(ra/dec)': dts,
+        for which in ('lform', 'csform'):
+            if s.get(which, 'f') != 'f':
+                forms[which + ':' + s[which]] = forms.get(which + ':' + s[which], 0) + 1
+    ctx.sample({'recorded_sets': len(recs), 'not_judged_too_many_borderline_pairs': skipped, 'by_driver': tags, 'by_input_dtypes(ra/dec)': dts, 'by_scalar_form(linklength/chunksize)': forms,
                 'seam_sweep_ra_chunk_counts': sorted({x['nra'] for x in sweep}) if len(sweep) < 200 else
                 '%d distinct counts %d..%d' % (len({x['nra'] for x in sweep}), min(x['nra'] for x in sweep), max(x['nra'] for x in sweep)),
                 'seam_sweep_counts_not_attainable': missing,
@@ -664,12 +756,47 @@ def run(ctx):
     for k in sorted(bad):
         s, obs = kept[k]
         what = ('spheregroup on %d points (%s, dtypes %s, L=%r, chunksize=%r): TLC verdict "%s"; %s'
-                % (len(s['ra']), s['tag'], '/'.join(s.get('dt', ['d', 'd'])), s['L'], s['cs'], bad[k],
+                % (len(s['ra']), s['tag'], '/'.join(s.get('dt', ['d', 'd'])) + ' L:' + str(s.get('lform', 'f')) + ' cs:' + str(s.get('csform', 'f')),
+                   s['L'], s['cs'], bad[k],
                    obs['exc'] if 'exc' in obs else 'ingroup=%s' % obs['ig'][:40]))
         ctx.violation({'what': what, 'type': 'sky', 'ra': s['ra'], 'dec': s['dec'], 'L': s['L'], 'cs': s['cs'],
                        'dt': s.get('dt', ['d', 'd']), 'band': s.get('band', BAND_REL),
+                       'lform': s.get('lform', 'f'), 'csform': s.get('csform', 'f'),
                        'tag': s['tag'], 'why': bad[k], 'observed': obs, 'points_in_no_chunk': uncovered_points(s)},
                       finding=classify_sky(s, obs))
+    # ---- binding self-test: accepted records with ONE observed field falsified must all be rejected ----
+    fals = []
+    for k, rec in enumerate(recs):
+        if k in bad or rec['err'] or rec['border'] or len(fals) >= 240:
+            continue
+        if k % max(1, len(recs) // 300):
+            continue
+        f = {key: (list(v) if isinstance(v, list) else v) for key, v in rec.items()}
+        n, ig = rec['n'], rec['ig']
+        ng = max(ig) + 1
+        mode = len(fals) % 5
+        if mode == 0:                                   # a point moved to another (or a new) group
+            f['ig'] = list(ig)
+            f['ig'][n - 1] = (ig[n - 1] + 1) % ng if ng > 1 else 1
+        elif mode == 1:                                 # a multiplicity off by one
+            f['mult'] = list(rec['mult'])
+            f['mult'][len(fals) % ng] += 1
+        elif mode == 2:                                 # first[] not the lowest member
+            f['first'] = list(rec['first'])
+            g = len(fals) % ng
+            f['first'][g] = rec['next'][rec['first'][g]] if rec['next'][rec['first'][g]] != -1 else -1
+        elif mode == 3:                                 # the chain of a group cut short or made circular
+            f['next'] = list(rec['next'])
+            j = rec['first'][len(fals) % ng]
+            f['next'][j] = -1 if rec['next'][j] != -1 else j
+        else:                                           # numbering not by first member / tail not empty
+            if ng > 1:
+                f['ig'] = [(ng - 1) - x for x in ig]
+            else:
+                f['mult'] = list(rec['mult'])
+                f['mult'][n - 1] = 1
+        fals.append(f)
+    core.binding_selftest(ctx, 'Trace_FoF', fals, 'recorded_spheregroup')
     ctx.exhaustive = not ctx.quick
 
 
@@ -683,7 +810,7 @@ def replay(ctx, case):
     if t == 'sky':
         adj, border = oracle(case['ra'], case['dec'], case['L'], case.get('band', BAND_REL))
         obs = run_real({'ra': case['ra'], 'dec': case['dec'], 'L': case['L'], 'cs': case['cs'],
-                        'dt': case.get('dt', ['d', 'd'])})
+                        'dt': case.get('dt', ['d', 'd']), 'lform': case.get('lform'), 'csform': case.get('csform')})
         rec = sg_record(len(case['ra']), adj, border, obs)
     elif t == 'cover':
         raw, obs = real_cover_case(case['n'], case['adj'], case['cover'], case.get('dtype', 'd'))
